@@ -21,7 +21,7 @@ RULE = ('Exhaustive: every line up to length 7 (quick) / 9 (thorough) over the c
         '(fields, warning <=> an unquoted field contains a quote), dlm.join(preserved) == line, unquote(preserved[i]) == fields[i]; simple / '
         'whitespace / monocolumn against str.split(d), split on runs of spaces, identity. Non-trivial = line contains a quote and a delimiter; '
         'enumerated lines are distinct by construction.')
-ASSUMPTIONS = ['lines contain no CR/LF (line breaking is C12)', 'delimiter is not the double quote and contains no space/quote when multi-character']
+ASSUMPTIONS = ['lines handed to the record iterator contain no CR/LF (line breaking is C12); direct smart_split calls also get LF / CR as ordinary characters', 'delimiter is not the double quote and contains no space/quote when multi-character']
 
 SINGLE = [',', ';', '\t', '|']
 MULTI = ['::', '###', 'ab', '<>']
@@ -118,6 +118,29 @@ def shard_enum(shard, nshards, tier, seed, scratch):
                             seen_clauses.add(key)
                             failures.append({'leg': 'enum', 'clause': v.clause, 'detail': v.detail, 'case': {'kind': 'line', 'line': line, 'delim': d, 'policy': policy}, '_len': n})
         stats.bump('enumerated-delim-' + repr(d))
+    # records with multi-line fields reach the splitter with line breaks inside: LF / CR are ordinary characters for it (direct calls only)
+    for d in (',', ' ', '::'):
+        alphabet = ['"', d, ' ', 'x', '\n', '\r'] if d != ' ' else ['"', ' ', 'x', '\n', '\r']
+        for n in range(1, (6 if tier == 'quick' else 7) + 1):
+            for tup in itertools.product(alphabet, repeat=n):
+                if '\n' not in tup and '\r' not in tup:
+                    continue
+                counter += 1
+                if counter % nshards != shard:
+                    continue
+                line = ''.join(tup)
+                for policy in ('quoted', 'quoted_rfc'):
+                    stats.evaluations += 1
+                    if '"' in tup and d in tup:
+                        stats.nontrivial_counted += 1
+                    try:
+                        check_line(line, d, policy, via_iterator=False)
+                    except Violation as v:
+                        key = (policy, 'nl', v.clause)
+                        if key not in seen_clauses:
+                            seen_clauses.add(key)
+                            failures.append({'leg': 'enum-newline', 'clause': v.clause, 'detail': v.detail, 'case': {'kind': 'line-direct', 'line': line, 'delim': d, 'policy': policy}})
+        stats.bump('enumerated-with-line-breaks-delim-' + repr(d))
     # keep the shortest failing line per clause (enumeration is by increasing length per delimiter)
     for f in failures:
         f.pop('_len', None)
@@ -213,7 +236,9 @@ def shard_random(shard, nshards, tier, seed, scratch):
 
 
 def replay(case, clause=None):
-    if case.get('kind') == 'line':
+    if case.get('kind') == 'line-direct':
+        check_line(case['line'], case['delim'], case['policy'], via_iterator=False)
+    elif case.get('kind') == 'line':
         check_line(case['line'], case['delim'], case['policy'])
     else:
         check_random(case)
